@@ -497,6 +497,46 @@ def check(ctx):
             ctx.violation('C01.R15', bm.rel, do, Model.qual(do), 'the contents octets %s of OBJECT IDENTIFIER %s are decoded as %s: the first subidentifier is 40 * X + Y with X at most 2, so every '
                           'identifier under 2.40 and above (2.999.1) comes back as another value in BER, DER, PER, UPER and OER' % (refhex, oid, got), stmt='object identifier contents (decode)')
 
+    # ---- R16: a DEFAULT is never lost between the text and the codec.  The parser stores `member['default'] = convert_value(..)`; downstream "default is None" means "the
+    #      component has no DEFAULT" (has_default()).  A value notation the converter cannot represent must therefore be rejected, not answered with None: with None the
+    #      specification is accepted, the component silently becomes mandatory (an absent value is refused, PER has no preamble bit for it, DER encodes the default value).
+    ctx.rule('C01.R16', 'parser: the converter of DEFAULT values has no path that answers None (= no DEFAULT) for a value notation it does not understand')
+    pm = model.mod('asn1tools/parser.py')
+    n16 = 0
+    for g16 in pm.functions.values():
+        for a16 in walk_no_nested(g16):
+            if not (isinstance(a16, ast.Assign) and any(isinstance(t_, ast.Subscript) and isinstance(t_.slice, ast.Constant) and t_.slice.value == 'default' for t_ in a16.targets)):
+                continue
+            v16 = sem.View(g16)
+            srcs = [a16.value]
+            if isinstance(a16.value, ast.Name):
+                srcs = [b_.value for b_ in walk_no_nested(g16) if isinstance(b_, ast.Assign) and any(isinstance(t_, ast.Name) and t_.id == a16.value.id for t_ in b_.targets)]
+            for e16 in srcs:
+                if not (isinstance(e16, ast.Call) and isinstance(e16.func, ast.Name)):
+                    continue
+                conv = pm.resolve_name(e16.func.id)
+                if not isinstance(conv, ast.FunctionDef):
+                    continue
+                n16 += 1
+                cps = sem.paths(conv) or []
+                none_paths = []
+                for p_ in cps:
+                    if p_.outcome[0] != 'return':
+                        continue
+                    rv = p_.outcome[3] if len(p_.outcome) > 3 else None
+                    if rv is None or (isinstance(rv, ast.Constant) and rv.value is None):
+                        none_paths.append(p_)
+                ctx.instance('C01.R16', '%s stores %s(..) as the DEFAULT' % (Model.qual(g16), conv.name), 'VIOLATION' if none_paths else 'every path converts or raises', node=conv, file=pm.rel)
+                if none_paths:
+                    p_ = none_paths[0]
+                    ctx.violation('C01.R16', pm.rel, conv, 'asn1tools/parser.py::%s' % conv.name,
+                                  '%s() answers None on the path [%s] and %s stores that as the member\'s DEFAULT: `s SEQUENCE { x INTEGER } DEFAULT { x 5 }`, `l SEQUENCE OF INTEGER '
+                                  'DEFAULT {1, 2}` are accepted, the component is then treated as having no DEFAULT at all -- encoding {} is refused ("member \'s\' not found"), PER / UPER send '
+                                  'no presence bit for it and DER encodes a value equal to the default'
+                                  % (conv.name, '; '.join(('' if c_[1] else 'not ') + c_[0] for c_ in p_.conds)[:160], g16.name), stmt='DEFAULT value converted to None')
+    if n16 < 1:
+        raise AnalysisError('C01.R16: the conversion of member DEFAULT values was not found in asn1tools/parser.py')
+
     # ---- R14: the decoders of the known-multiplier strings rebuild the octets of each character for <bytes>.decode(ENCODING).  How many octets a character has is a matter of
     #      the encoding (two for BMPString), not of the bits it takes on the wire: a permitted alphabet narrows the field, not the character.  Every decode method of the
     #      family therefore converts with the same width, the one derived from the unconstrained alphabet.
